@@ -36,6 +36,7 @@ THEOREMS = ["C13_passthrough", "C13_passthrough_stable", "C13_valid_stable", "C1
             "C13_defaults_guard_sound", "C13_wf_guard_sound", "C13_refuted_idem_nonconforming_default",
             "C13_refuted_idem_general_union"]
 FUEL = coremodel.FUEL
+OO_FUEL = 7
 NoneType = type(None)
 _state: dict = {}
 
@@ -206,7 +207,15 @@ def emit_valid_tie(g, recs, name):
             except (coremodel.ModelRaise, RecursionError):
                 pass
     names = [n for n, d in g.env["defs"].items() if d[0] in ("class", "alias")]
-    roots_oo = all(G.optional_only(r, g.env) for r in g.roots)
+    # optional_only: the roots (all union-free / Optional-only by construction) and two general unions placed under
+    # them.  Shallow fuel: on a cyclic environment the unfolding is a tree (exponential in the fuel).
+    gu = ("union", "|", [("leaf", "int"), ("leaf", "str")])
+    oo_cases = [(r, True) for r in g.roots] + [
+        (("seq", "KList", "list[{}]", gu), False),
+        (("union", "|", [("leaf", "int"), ("none",), ("leaf", "str")]), False),
+        (("tuple", "tuple[{}]", [g.roots[0], ("map", "KDict", "dict[{}, {}]", ("leaf", "str"), gu)]), False),
+        (("union", "|", [("none",), ("seq", "KList", "list[{}]", ("leaf", "str"))]), True)]
+    assert all(G.optional_only(t, g.env) == e for t, e in oo_cases)
     text = (
         f"Definition lvt : list (nat * pv) := {coq_list([f'({coq_nat(s)}, {e})' for (s, e) in lvt], '(nat * pv)')}.\n"
         "Definition lv (s : nat) (v : pv) : bool := existsb (fun p => andb (Nat.eqb s (fst p)) (pv_eqb v (snd p))) lvt.\n"
@@ -214,10 +223,11 @@ def emit_valid_tie(g, recs, name):
         f"Definition bad_valid := mismatches (fun c : ty * pv * bool * bool => match c with (t, v, ev, es) =>\n"
         f"  andb (Bool.eqb (valid lv rt E {FUEL} t v) ev) (Bool.eqb (stable lv rt E {FUEL} t v) es) end) vcases.\n"
         f"Definition names : list nat := {coq_list([coq_nat(n) for n in names], 'nat')}.\n"
-        f"Definition roots : list ty := {coq_list([reg.emit_ty(r) for r in g.roots], 'ty')}.\n"
-        f"Definition guards := (nodup_namesb E names, defaults_okb rt E {FUEL} names, forallb (optional_only E {FUEL}) roots).\n"
+        f"Definition oo_cases : list (ty * bool) := {coq_list([f'({reg.emit_ty(t)}, {coq_bool(e)})' for t, e in oo_cases], '(ty * bool)')}.\n"
+        f"Definition guards := (nodup_namesb E names, defaults_okb rt E {FUEL} names,\n"
+        f"  forallb (fun c : ty * bool => Bool.eqb (optional_only E {OO_FUEL} (fst c)) (snd c)) oo_cases).\n"
     )
-    expected = (True, not g.bad_defaults, roots_oo)
+    expected = (True, not g.bad_defaults, True)
     return text, descs, expected
 
 
@@ -244,7 +254,7 @@ def evaluate(run, groups, records, tag, per_file=5):
         fname = f"cases_{tag}_{fi // per_file}.v"
         files[fname] = text
         order.append((fname, chunk))
-    results = run.coq_eval_many(files, timeout=900)
+    results = run.coq_eval_many(files, timeout=400)
     bad, badv, badg = [], [], []
     for fname, chunk in order:
         res = results[fname]
@@ -257,7 +267,7 @@ def evaluate(run, groups, records, tag, per_file=5):
             badv += [descs[i] for i in lib.parse_nat_list(res[3 * gi + 1])]
             got = tuple(x.strip() == "true" for x in res[3 * gi + 2].strip().strip("()").split(","))
             if got != expected:
-                badg.append({"module": g.env["module"], "coq (nodup names, defaults conform, roots optional-only)": got,
+                badg.append({"module": g.env["module"], "coq (nodup names, defaults conform, optional_only as expected)": got,
                              "python": expected, "bad_defaults": g.bad_defaults, "source": g.src[-1500:]})
     ncases = sum(len(g.cases) for g in groups)
     distinct = len({(g.env["module"], c[0], c[1], c[2]) for g in groups for c in g.cases})
